@@ -282,6 +282,25 @@ def check_codec(acc, codec, x, sym=False):
         acc.violation(mech, f"{key} on {_short(x)}{how} gave {_short(text)}; run as a program it left {obs} "
                             f"instead of [{_short(x)}] ({detail})", unit,
                       codec=codec, text=text, observed=obs, diagnosis=detail)
+    elif acc.c.get(codec + "_roundtrips", 0) % 3 == 0:
+        # "evaluates back to exactly the original value" wherever the literal stands: here in the condition of a
+        # while loop, which the transpiler emits twice (before the loop and at the end of the body); the value
+        # kept is the one from the second evaluation
+        prog = "0→i{" + text + "→v←i0=|1→i}←v"
+        try:
+            with watchdog(5):
+                r3 = env.run_text(prog)
+                got3 = canon(r3.stack, limit=50) if r3.error is None else None
+        except (Watchdog, MemoryError, RecursionError):
+            r3 = None
+        if r3 is not None and not _resource_error(r3):
+            acc.bump("roundtrips_in_while_condition")
+            if r3.error is not None or got3 != [x]:
+                obs = _err(r3) if r3.error is not None else f"stack {_short(got3)}"
+                acc.violation("literal-differs-on-second-evaluation",
+                              f"{key} on {_short(x)}{how} gave {_short(text)}; alone it evaluates back, as the condition of a "
+                              f"while loop ({_short(prog)}) the second evaluation left {obs} instead of [{_short(x)}]", unit,
+                              codec=codec, text=text, observed=obs)
     if codec == "oD":
         acc.bump("oD_length_checks")
         plain = "`" + x + "`"
